@@ -59,6 +59,20 @@ def run(c):
                       max=300 if c.thorough else 40))
     cases.append(dict(kind="gen", seed=rng.getrandbits(40), count=600 if c.thorough else 150, depth=3, explore="random", level="atomic",
                       max=20 if c.thorough else 6))
+    # several threads build combinators on ONE shared source that already carries three callbacks, racing with its completion:
+    # a registration lost inside the promise shows up here as a derived future that never completes
+    for name in ["Map", "m.Map", "FlatMap", "LiftA2", "Sequence", "RecoverWith"]:
+        if name in ("LiftA2", "Sequence"):
+            prog = dict(k="all", name=name, args=[dict(k="src", id=1), dict(k="src", id=1)], fin=dict(t="pure" if name == "LiftA2" else "none", id=0, c="-"))
+        elif name in ("Map", "m.Map"):
+            prog = dict(k="all", name=name, args=[dict(k="src", id=1)], fin=dict(t="pure", id=0, c="-"))
+        elif name == "FlatMap":
+            prog = dict(k="chain", name=name, arg=dict(k="src", id=1), ks=[dict(id=0, c="kinc")])
+        else:
+            prog = dict(k="rec", name=name, arg=dict(k="src", id=1), kk=dict(id=0, c="kinc"))
+        for prereg in (3, 1, 0):
+            cases.append(dict(kind="prog", prog=prog, res=[rng.choice(resv)], pre=[], order=[1], builders=2, prereg=prereg,
+                              explore="random", level="atomic", max=150 if c.thorough else 40, seed=rng.getrandbits(30)))
     summary, out = c.harness("c06", cases, timeout=3400)
     c.cov["evaluations"] += summary["events"]
     c.extra.update({k: v for k, v in summary.items() if k not in ("events", "traces")})
